@@ -191,6 +191,10 @@ class Runner {
       auto p = a.onlyCase.find(':');
       if (a.onlyCase.substr(0, p) != name) return emitted;
       uint64_t idx = strtoull(a.onlyCase.c_str() + p + 1, nullptr, 10);
+      if (idx >= N && N != 0) {
+        fprintf(stderr, "--case %s: index out of range (phase has %llu cases)\n", a.onlyCase.c_str(), (unsigned long long)N);
+        exit(2);
+      }
       single_ = true;
       allocShared(10);
       Ctx c{this, 0, idx, name};
